@@ -75,6 +75,15 @@ func genC18(r *simrt.RNG, tier string, variant int) Plan {
 			p.Faults = append(p.Faults, Fault{Kind: "hang", N: 1, Frame: -1})
 		}
 	}
+	if p.Family == "faulty" && r.Bool(0.4) {
+		// a second and third drop on the re-established connections before the close
+		p.Faults = append(p.Faults, Fault{Kind: Pick(r, []string{"fin", "rst"}), Dir: "s2c", Pipe: -2, Phase: 1, Frame: r.Intn(3), Pos: "after"})
+		if r.Bool(0.5) {
+			p.Faults = append(p.Faults, Fault{Kind: Pick(r, []string{"fin", "rst"}), Dir: "s2c", Pipe: -2, Phase: 2, Frame: r.Intn(3), Pos: "after"})
+		}
+		p.Params["close_step"] = int64(200 + r.Intn(1200))
+		return p
+	}
 	p.Params["close_step"] = int64(r.Intn(500))
 	if r.Bool(0.3) {
 		p.Params["close_step"] = int64(r.Intn(60))
@@ -99,6 +108,10 @@ func runC18(e *Env, p *Plan) {
 		case "hang":
 			e.N.HangNext(addr, f.N)
 		default:
+			if f.Pipe == -2 {
+				e.N.PlanCutNextK(addr, f.Phase-1, simnet.Cut{Dir: f.Dir, Frame: f.Frame, Pos: f.Pos, Kind: f.Kind})
+				continue
+			}
 			e.N.PlanCut(f.Pipe, simnet.Cut{Dir: f.Dir, Frame: f.Frame, Pos: f.Pos, Kind: f.Kind, Dur: dur(f.DurNs)})
 		}
 	}
